@@ -1,7 +1,201 @@
 package mon
 
-// SelfTest checks the harness' own assumptions (view completeness, reference
-// tables vs. library constants). An error makes every run inconclusive.
+import (
+	"fmt"
+	"reflect"
+	"strings"
+
+	"github.com/intuitivelabs/sipsp"
+
+	"verif/harness/ref"
+	"verif/harness/view"
+)
+
+// SelfTest checks the harness' own assumptions before any monitor runs:
+//   - the reference tables use the library's numbering (constants only, no behaviour),
+//   - view completeness: flipping ANY exported field of a viewed type changes the
+//     public view (so a field added upstream cannot silently go uncompared),
+//   - the reference oracles on a few literal facts.
+//
+// An error makes every run inconclusive ("harness out of date"), never green.
 func SelfTest() error {
+	consts := []struct {
+		name string
+		lib  int
+		ref  int
+	}{
+		{"HdrFrom", int(sipsp.HdrFrom), ref.HdrFrom}, {"HdrTo", int(sipsp.HdrTo), ref.HdrTo}, {"HdrCallID", int(sipsp.HdrCallID), ref.HdrCallID},
+		{"HdrCSeq", int(sipsp.HdrCSeq), ref.HdrCSeq}, {"HdrVia", int(sipsp.HdrVia), ref.HdrVia}, {"HdrMaxFwd", int(sipsp.HdrMaxFwd), ref.HdrMaxFwd},
+		{"HdrCLen", int(sipsp.HdrCLen), ref.HdrCLen}, {"HdrContact", int(sipsp.HdrContact), ref.HdrContact}, {"HdrExpires", int(sipsp.HdrExpires), ref.HdrExpires},
+		{"HdrUA", int(sipsp.HdrUA), ref.HdrUA}, {"HdrRecordRoute", int(sipsp.HdrRecordRoute), ref.HdrRecordRoute}, {"HdrRoute", int(sipsp.HdrRoute), ref.HdrRoute},
+		{"HdrPAI", int(sipsp.HdrPAI), ref.HdrPAI}, {"HdrOther", int(sipsp.HdrOther), ref.HdrOther},
+		{"MRegister", int(sipsp.MRegister), ref.MRegister}, {"MInvite", int(sipsp.MInvite), ref.MInvite}, {"MAck", int(sipsp.MAck), ref.MAck},
+		{"MBye", int(sipsp.MBye), ref.MBye}, {"MPrack", int(sipsp.MPrack), ref.MPrack}, {"MCancel", int(sipsp.MCancel), ref.MCancel},
+		{"MOptions", int(sipsp.MOptions), ref.MOptions}, {"MSubscribe", int(sipsp.MSubscribe), ref.MSubscribe}, {"MNotify", int(sipsp.MNotify), ref.MNotify},
+		{"MUpdate", int(sipsp.MUpdate), ref.MUpdate}, {"MInfo", int(sipsp.MInfo), ref.MInfo}, {"MRefer", int(sipsp.MRefer), ref.MRefer},
+		{"MPublish", int(sipsp.MPublish), ref.MPublish}, {"MMessage", int(sipsp.MMessage), ref.MMessage}, {"MOther", int(sipsp.MOther), ref.MOther},
+	}
+	for _, c := range consts {
+		if c.lib != c.ref {
+			return fmt.Errorf("constant %s: library %d, harness table %d", c.name, c.lib, c.ref)
+		}
+	}
+	// reference oracle facts
+	if e := ref.IP4EndsAt([]byte("1.2.3.2540"), 0); len(e) != 3 || e[2] != 9 {
+		return fmt.Errorf("IPv4 reference matcher: 1.2.3.2540 -> %v", e)
+	}
+	if len(ref.IP4EndsAt([]byte("256.1.1.1"), 0)) != 0 || !ref.ContainsIP4([]byte("x256.1.1.1")) || ref.ContainsIP4([]byte("1.2.3.")) {
+		return fmt.Errorf("IPv4 reference matcher: boundary facts wrong")
+	}
+	if ref.HdrType([]byte("cOnTaCt")) != ref.HdrContact || ref.HdrType([]byte("contact ")) != ref.HdrOther || ref.MethodNo([]byte("invite")) != ref.MOther {
+		return fmt.Errorf("reference tables: classification facts wrong")
+	}
+	if ls, end, ok := ref.HeaderLines([]byte("a: b\r\n c\rd:e\n\r\nX"), 0); !ok || len(ls) != 2 || end != 15 || ls[0].E != 9 || ls[1].E != 13 {
+		return fmt.Errorf("reference line splitter: %v %d %v", ls, end, ok)
+	}
+	if s := ref.SplitURI([]byte("u;x:p@[::1]:5;a?b"), 4); string(s.User) != "u;x" || string(s.Pass) != "p" || string(s.Host) != "[::1]" || string(s.Port) != "5" || string(s.Params) != "a" || string(s.Headers) != "b" {
+		return fmt.Errorf("reference URI splitter: %+v", s)
+	}
+	return viewCompleteness()
+}
+
+type viewRoot struct {
+	name string
+	mk   func() (ptr interface{}, walk func(v *view.Vec))
+}
+
+func viewCompleteness() error {
+	roots := []viewRoot{
+		{"PSIPMsg", func() (interface{}, func(*view.Vec)) {
+			m := &sipsp.PSIPMsg{}
+			m.Init(nil, make([]sipsp.Hdr, 1), make([]sipsp.PFromBody, 1))
+			m.HL.N = 1
+			m.PV.Contacts.N = 1
+			m.PV.PAIs.N = 1
+			m.Buf = []byte{0, 0, 0}
+			m.RawMsg = m.Buf[1:]
+			return m, func(v *view.Vec) { view.Msg(v, m, view.MsgOpt{}) }
+		}},
+		{"PTokParam", func() (interface{}, func(*view.Vec)) {
+			p := &sipsp.PTokParam{}
+			return p, func(v *view.Vec) { view.TokParam(v, p) }
+		}},
+		{"URIParamsLst", func() (interface{}, func(*view.Vec)) {
+			l := &sipsp.URIParamsLst{}
+			l.Init(make([]sipsp.URIParam, 1))
+			l.N = 1
+			return l, func(v *view.Vec) { view.URIParams(v, l, view.Opt{}) }
+		}},
+		{"URIHdrsLst", func() (interface{}, func(*view.Vec)) {
+			l := &sipsp.URIHdrsLst{}
+			l.Init(make([]sipsp.URIHdr, 1))
+			l.N = 1
+			return l, func(v *view.Vec) { view.URIHdrs(v, l, view.Opt{}) }
+		}},
+		{"PsipURI", func() (interface{}, func(*view.Vec)) {
+			u := &sipsp.PsipURI{}
+			return u, func(v *view.Vec) { view.URI(v, u) }
+		}},
+		{"PContacts(stand-alone)", func() (interface{}, func(*view.Vec)) {
+			c := &sipsp.PContacts{}
+			c.Init(make([]sipsp.PFromBody, 1))
+			c.N = 1
+			return c, func(v *view.Vec) { view.Contacts(v, c, view.Opt{}) }
+		}},
+		{"HdrLst(stand-alone)", func() (interface{}, func(*view.Vec)) {
+			h := &sipsp.HdrLst{}
+			h.Hdrs = make([]sipsp.Hdr, 1)
+			h.N = 1
+			return h, func(v *view.Vec) { view.HdrLst(v, h, view.Opt{}) }
+		}},
+	}
+	for _, r := range roots {
+		// collect the leaf paths once
+		ptr, _ := r.mk()
+		var paths [][]int
+		collectLeaves(reflect.ValueOf(ptr).Elem(), nil, &paths)
+		if len(paths) == 0 {
+			return fmt.Errorf("view completeness: no exported fields found in %s", r.name)
+		}
+		for _, path := range paths {
+			ptr, walk := r.mk()
+			var base, flipped view.Vec
+			base.Reset(-1)
+			walk(&base)
+			leaf, name := follow(reflect.ValueOf(ptr).Elem(), path)
+			if !flip(leaf) {
+				return fmt.Errorf("view completeness: cannot flip %s.%s (kind %s): harness out of date", r.name, name, leaf.Kind())
+			}
+			flipped.Reset(-1)
+			walk(&flipped)
+			if view.Equal(&base, &flipped) {
+				return fmt.Errorf("view completeness: changing exported field %s.%s does not change the public view: harness out of date", r.name, name)
+			}
+		}
+	}
 	return nil
+}
+
+// collectLeaves lists index paths to every exported leaf field (recursing into
+// structs, element 0 of slices/arrays of structs). Embedded *IState structs are
+// internal automaton state and skipped.
+func collectLeaves(v reflect.Value, path []int, out *[][]int) {
+	switch v.Kind() {
+	case reflect.Struct:
+		t := v.Type()
+		for i := 0; i < t.NumField(); i++ {
+			f := t.Field(i)
+			if f.PkgPath != "" || strings.HasSuffix(f.Type.Name(), "IState") {
+				continue
+			}
+			collectLeaves(v.Field(i), append(append([]int(nil), path...), i), out)
+		}
+	case reflect.Slice:
+		if v.Type().Elem().Kind() == reflect.Uint8 {
+			*out = append(*out, path)
+			return
+		}
+		if v.Len() > 0 {
+			collectLeaves(v.Index(0), append(append([]int(nil), path...), -1), out)
+		}
+	case reflect.Array:
+		if v.Len() > 0 {
+			collectLeaves(v.Index(0), append(append([]int(nil), path...), -1), out)
+		}
+	default:
+		*out = append(*out, path)
+	}
+}
+
+func follow(v reflect.Value, path []int) (reflect.Value, string) {
+	name := ""
+	for _, i := range path {
+		if i < 0 {
+			v = v.Index(0)
+			name += "[0]"
+			continue
+		}
+		name += "." + v.Type().Field(i).Name
+		v = v.Field(i)
+	}
+	return v, strings.TrimPrefix(name, ".")
+}
+
+func flip(v reflect.Value) bool {
+	if !v.CanSet() {
+		return false
+	}
+	switch v.Kind() {
+	case reflect.Bool:
+		v.SetBool(!v.Bool())
+	case reflect.Int, reflect.Int8, reflect.Int16, reflect.Int32, reflect.Int64:
+		v.SetInt(v.Int() + 1)
+	case reflect.Uint, reflect.Uint8, reflect.Uint16, reflect.Uint32, reflect.Uint64:
+		v.SetUint(v.Uint() + 1)
+	case reflect.Slice:
+		v.Set(reflect.ValueOf([]byte{9, 9, 9, 9, 9}))
+	default:
+		return false
+	}
+	return true
 }
